@@ -141,6 +141,15 @@ pub fn ref_lex(text: &str, t: &[OpCfg]) -> Option<String> {
 /// operator of the table (`+`/`++`, `-`/`-inf`, `mod`/`modsq`): the longest matching name must win
 /// whatever the roles are
 fn with_prefix_pairs(r: &mut Rng, mut t: Vec<OpCfg>) -> Vec<OpCfg> {
+    // one table in eight has an operator whose name starts like a number literal (`.` as in the value
+    // type's index operator, or `0x`): literals are matched before operators
+    if r.chance(1, 8) {
+        let name = *r.pick(&[".", "0x", "1st"]);
+        if !t.iter().any(|c| c.name == name) {
+            t.push(OpCfg { name: name.to_string(), bin: Some((r.below(3) as i64, false)), un: r.chance(1, 2), konst: false });
+        }
+        return t;
+    }
     if !r.chance(1, 3) {
         return t;
     }
